@@ -124,6 +124,7 @@ def pktUnmarshalL (r : Packet) (buf : Bytes) : Res (Packet × Nat × List Nat) :
 structure HdrOk where
   h    : Header                 -- canonical (C01.canonH)
   n    : Nat                    -- reported header length
+  nExt : Nat                    -- len(h.Extensions), whatever the X flag says (stale elements would show here)
   locs : List Int               -- offset of every extension value in the input (-1: empty value)
   ids  : List UInt8             -- GetExtensionIDs()
   gets : List (Option Bytes)    -- GetExtension(id) for every listed id
@@ -132,6 +133,7 @@ structure HdrOk where
 /-- what is observed of a successfully decoded packet -/
 structure PktOk where
   p      : Packet               -- canonical (C01.canonP)
+  nExt   : Nat                  -- len(p.Extensions)
   payOff : Int                  -- offset of the payload in the input (-1: empty payload)
   locs   : List Int
   ids    : List UInt8
@@ -159,13 +161,14 @@ def canonLocs : List Ext → List Nat → List Int
 def mkHdrOk (x : Header × Nat × List Nat) : HdrOk :=
   let (h, n, locs) := x
   let ids := getExtensionIDs h
-  { h := C01.canonH h, n := n, locs := canonLocs h.exts locs, ids := ids,
+  { h := C01.canonH h, n := n, nExt := h.exts.length, locs := canonLocs h.exts locs, ids := ids,
     gets := ids.map (getExtension h) }
 
 def mkPktOk (x : Packet × Nat × List Nat) : PktOk :=
   let (p, n, locs) := x
   let ids := getExtensionIDs p.header
-  { p := C01.canonP p, payOff := canonLoc p.payload.length n, locs := canonLocs p.header.exts locs,
+  { p := C01.canonP p, nExt := p.header.exts.length, payOff := canonLoc p.payload.length n,
+    locs := canonLocs p.header.exts locs,
     ids := ids, gets := ids.map (getExtension p.header) }
 
 /-- the model's observation of one receiver pair (`rh` Header receiver, `rp` Packet receiver) -/
